@@ -197,100 +197,118 @@ def lex_run(name, defs, tier, seed, cfgs, maxlen, nchars, tlc_workers=8, livenes
                  metaname="graphlex-" + name, timeout=3000 if tier == "quick" else 12000, xss="512m")
     graphlex = {"states": gl["states"], "distinct": gl["distinct"], "depth": gl["depth"], "wall": gl["wall"], "ok": gl["ok"],
                 "tail": "" if gl["ok"] else gl["out"][-2500:]}
-    runs = [r[2] for r in tlc_records(res["out"]) if r[0] == "RUN"]
-    log("[lex:%s] TLC %d states, %d distinct, %d complete behaviours, %.1fs" % (name, res["states"], res["distinct"], len(runs), res["wall"]))
     bins = build_subjects(metas, cfgs, name)
+    has_twins = any(td["twin"] for td in tla_defs)
+    look_of = {td["idx"]: any(rf["look"] for rf in td["ref"]) for td in tla_defs}
+    findings = []
+    samples = []
+    counts = {"runs": 0, "requests": 0, "more": 0, "explored": set()}
+    twin_items = {}      # (def idx, input hex) -> items of the last configuration, full mode, definitions with a twin only
 
-    requests = []
-    for run in runs:
+    def add(f):
+        if len(findings) < 3000:
+            findings.append(f)
+        else:
+            counts["more"] += 1
+
+    def requests_of(run):
         m = meta_by_idx[run["d"]]
         cb = char_bytes[run["d"]]
         data = []
         for c in run["chars"]:
             data.extend(cb[c - 1])
         hexd = bytes(data).hex()
-        assert len(data) == len(run["src"])
-        requests.append(("%d f %s" % (run["d"], hexd), {"d": run["d"], "mode": "full", "data": hexd, "exp": exp_items(m, run["items"])}))
+        out = [("%d f %s" % (run["d"], hexd), {"d": run["d"], "mode": "full", "data": hexd, "exp": exp_items(m, run["items"])})]
         n = len(data)
         parts = run["parts"]
         if isinstance(parts, dict):
             parts = [parts[str(k)] for k in range(0, n + 1)]
-        run["parts"] = parts
         bounds = [k for k in range(0, n + 1) if parts[k]]
         for k in bounds:
-            requests.append(("%d p %s" % (run["d"], bytes(data[:k]).hex()),
-                             {"d": run["d"], "mode": "partial", "data": bytes(data[:k]).hex(), "exp": exp_items(m, run["parts"][k])}))
+            out.append(("%d p %s" % (run["d"], bytes(data[:k]).hex()),
+                        {"d": run["d"], "mode": "partial", "data": bytes(data[:k]).hex(), "exp": exp_items(m, parts[k])}))
         inner = [k for k in bounds if 0 < k < n]
         scheds = [[k] for k in inner] + [[a, b] for a in inner for b in inner if a < b]
         if len(scheds) > 12:
             scheds = rng.sample(scheds, 12)
         for ks in scheds:
-            requests.append(("%d c %s %s" % (run["d"], hexd, ",".join(map(str, ks))),
-                             {"d": run["d"], "mode": "chunked", "data": hexd, "splits": ks, "exp": exp_items(m, run["items"])}))
-    log("[lex:%s] %d replay requests x %d configurations" % (name, len(requests), len(cfgs)))
-    findings = []
-    last_replies = []
-    lines = [r[0] for r in requests]
-    for c in cfgs:
-        replies = run_subject(bins[c], lines, timeout=1800)
-        if len(replies) != len(lines):
-            raise ToolError("subject %s returned %d replies for %d requests" % (c, len(replies), len(lines)))
-        last_replies = replies
-        for (line, info), rep in zip(requests, replies):
-            m = meta_by_idx[info["d"]]
-            real = real_items(rep)
-            if rep.get("badslice"):
-                findings.append({"def": m["id"], "cfg": c, "kind": "badslice", "mode": info["mode"], "input": info["data"], "splits": info.get("splits"),
-                                 "expected": "slice()==source[span()] and remainder()==source[span().end..]", "got": rep, "why": "accessor mismatch", "src": m["src"]})
-            if real is None:
-                findings.append({"def": m["id"], "cfg": c, "kind": "crash", "mode": info["mode"], "input": info["data"], "splits": info.get("splits"),
-                                 "expected": info["exp"], "got": rep, "why": "crash", "src": m["src"]})
-                continue
-            look = any(rf["look"] for rf in tla_defs[info["d"] - 1]["ref"])
-            why = compare_seq(info["exp"], real, rep["fin"], allow_weak=(info["mode"] != "full" and look))
-            if why is None and info["mode"] == "full":
-                ag = rep.get("again")
-                if ag is not None and not (ag[0] is True and ag[1] == ag[2] == rep["fin"][0]):
-                    why = "None not stable on a further call: %s" % (ag,)
-            if why:
-                findings.append({"def": m["id"], "cfg": c, "kind": "seq_" + info["mode"], "mode": info["mode"], "input": info["data"], "splits": info.get("splits"),
-                                 "expected": info["exp"], "got": real, "fin": rep["fin"], "why": why, "src": m["src"]})
-    samples = []
-    for (line, info) in requests[:: max(1, len(requests) // 6)][:6]:
-        samples.append({"def": meta_by_idx[info["d"]]["id"], "mode": info["mode"], "input_hex": info["data"], "splits": info.get("splits"), "expected": info["exp"]})
+            out.append(("%d c %s %s" % (run["d"], hexd, ",".join(map(str, ks))),
+                        {"d": run["d"], "mode": "chunked", "data": hexd, "splits": ks, "exp": exp_items(m, run["items"])}))
+        return out
+
+    def flush(batch):
+        if not batch:
+            return
+        lines = [r[0] for r in batch]
+        for ci, c in enumerate(cfgs):
+            replies = run_subject(bins[c], lines, timeout=1800)
+            if len(replies) != len(lines):
+                raise ToolError("subject %s returned %d replies for %d requests" % (c, len(replies), len(lines)))
+            for (line, info), rep in zip(batch, replies):
+                m = meta_by_idx[info["d"]]
+                real = real_items(rep)
+                if rep.get("badslice"):
+                    add({"def": m["id"], "cfg": c, "kind": "badslice", "mode": info["mode"], "input": info["data"], "splits": info.get("splits"),
+                         "expected": "slice()==source[span()] and remainder()==source[span().end..]", "got": rep, "why": "accessor mismatch", "src": m["src"]})
+                if real is None:
+                    add({"def": m["id"], "cfg": c, "kind": "crash", "mode": info["mode"], "input": info["data"], "splits": info.get("splits"),
+                         "expected": info["exp"], "got": rep, "why": "crash", "src": m["src"]})
+                    continue
+                if has_twins and ci == len(cfgs) - 1 and info["mode"] == "full" and tla_defs[info["d"] - 1]["twin"]:
+                    twin_items[(info["d"], info["data"])] = [tuple(it[:4]) for it in rep["items"]]
+                why = compare_seq(info["exp"], real, rep["fin"], allow_weak=(info["mode"] != "full" and look_of[info["d"]]))
+                if why is None and info["mode"] == "full":
+                    ag = rep.get("again")
+                    if ag is not None and not (ag[0] is True and ag[1] == ag[2] == rep["fin"][0]):
+                        why = "None not stable on a further call: %s" % (ag,)
+                if why:
+                    add({"def": m["id"], "cfg": c, "kind": "seq_" + info["mode"], "mode": info["mode"], "input": info["data"], "splits": info.get("splits"),
+                         "expected": info["exp"], "got": real, "fin": rep["fin"], "why": why, "src": m["src"]})
+        if len(samples) < 6:
+            line, info = batch[len(batch) // 3]
+            samples.append({"def": meta_by_idx[info["d"]]["id"], "mode": info["mode"], "input_hex": info["data"], "splits": info.get("splits"), "expected": info["exp"]})
+        counts["requests"] += len(batch)
+
+    batch = []
+    for tag, sub, run in tlc_records(res, only="RUN"):
+        counts["runs"] += 1
+        counts["explored"].add(run["d"])
+        batch.extend(requests_of(run))
+        if len(batch) >= 150000:
+            flush(batch)
+            batch = []
+    flush(batch)
+    from pipeline import drop_records
+    drop_records(res)
+    drop_records(gl)
+    log("[lex:%s] TLC %d states, %d behaviours, %.1fs; %d replay requests x %d configurations" % (name, res["distinct"], counts["runs"], res["wall"], counts["requests"], len(cfgs)))
     extra = {}
-    if any(td["twin"] for td in tla_defs):
+    if has_twins:
         r2 = run_tlc("Modes.tla", "Modes.cfg", {"DEFS": lex_defs, "MAXLEN": str(maxlen)}, workers=tlc_workers, metaname="modes-" + name, xss="512m")
         extra["modes"] = {k: r2[k] for k in ("states", "distinct", "depth", "wall", "ok")}
         extra["modes_out"] = "" if r2["ok"] else r2["out"][-3000:]
+        drop_records(r2)
         # real str output vs real byte-mode output of the twin, same bytes
-        by_req = {}
-        for (line, info), rep in zip(requests, last_replies):
-            if info["mode"] == "full":
-                by_req[(info["d"], info["data"])] = rep
-        ndiff = 0
         ncmp = 0
-        for td in tla_defs:
-            if td["mode"] == "str" and td["twin"]:
-                for (dd, data), rep in by_req.items():
-                    if dd != td["idx"]:
-                        continue
-                    other = by_req.get((td["twin"], data))
-                    if other is None or "items" not in rep or "items" not in other:
-                        continue
-                    ncmp += 1
-                    oks = lambda r: [tuple(it[:4]) for it in r["items"] if it[0] == "ok"]
-                    errb = lambda r: sorted({b for it in r["items"] if it[0] == "err" for b in range(it[2], it[3])})
-                    if oks(rep) != oks(other) or errb(rep) != errb(other):
-                        ndiff += 1
-                        findings.append({"def": meta_by_idx[dd]["id"], "cfg": cfgs[-1], "kind": "mode_diff", "mode": "full", "input": data,
-                                         "expected": rep["items"], "got": other["items"], "why": "str mode and utf8=false disagree", "src": meta_by_idx[dd]["src"]})
+        for (dd, data), items in twin_items.items():
+            td = tla_defs[dd - 1]
+            if td["mode"] != "str":
+                continue
+            other = twin_items.get((td["twin"], data))
+            if other is None:
+                continue
+            ncmp += 1
+            oks = lambda its: [it for it in its if it[0] == "ok"]
+            errb = lambda its: sorted({b for it in its if it[0] == "err" for b in range(it[2], it[3])})
+            if oks(items) != oks(other) or errb(items) != errb(other):
+                add({"def": meta_by_idx[dd]["id"], "cfg": cfgs[-1], "kind": "mode_diff", "mode": "full", "input": data,
+                     "expected": items, "got": other, "why": "str mode and utf8=false disagree", "src": meta_by_idx[dd]["src"]})
         extra["mode_pairs_compared"] = ncmp
     out = {"name": name, "tier": tier, "seed": seed, "cfgs": cfgs, "maxlen": maxlen, "nchars": nchars, "extra": extra, "graphlex": graphlex,
            "tlc": {k: res[k] for k in ("states", "distinct", "depth", "wall")},
-           "behaviours": len(runs), "requests": len(requests), "runs": len(requests) * len(cfgs),
-           "defs": len(metas), "explored": len({r["d"] for r in runs}),
-           "findings": findings[:3000], "n_findings": len(findings), "samples": samples, "wall": time.time() - t0}
+           "behaviours": counts["runs"], "requests": counts["requests"], "runs": counts["requests"] * len(cfgs),
+           "defs": len(metas), "explored": len(counts["explored"]),
+           "findings": findings, "n_findings": len(findings) + counts["more"], "samples": samples, "wall": time.time() - t0}
     with open(cache, "w") as f:
         json.dump(out, f)
     return out
